@@ -36,7 +36,15 @@ structure Cfg where
   backoff : Option Tick      -- cancellation_backoff
   timeout : Option Tick      -- cancellation_timeout
   polling : Tick             -- cancellation_polling or settings.background.cancellation_polling
+  stopsGone : Bool := true      -- tree variant (since /repo 25da2b9): on a DELETED event the daemons of the forgotten
+                                -- memory are stopped by background `stop_daemon`s and nothing is spawned for it
+  marksExiting : Bool := true   -- tree variant (since /repo 1d3a667): the killer's exit sweep first marks the
+                                -- memories `operator_exiting`; `spawn_daemons` spawns nothing then
   deriving DecidableEq, Repr
+
+/-- the variants of the tree under test (tied to the AST: `Tie.stops_gone`, `Tie.marks_exiting`) -/
+def treeStopsGone : Bool := true
+def treeMarksExiting : Bool := true
 
 def Cfg.b0 (c : Cfg) : Tick := c.backoff.getD 0     -- `(backoff or 0)`
 def Cfg.t0 (c : Cfg) : Tick := c.timeout.getD 0
@@ -72,10 +80,13 @@ structure St where
   spawns : Nat               -- ghost: how many instances were ever created
   paused : Option Tick       -- `operator_paused` is on since that moment (the daemon killer's rounds: p, p+64, …)
   killerDone : Bool          -- the daemon killer has done its exit sweep (its `finally:`) and is gone
+  exitAt : Option Tick       -- the daemon killer's `finally:` has begun then (`memories.mark_operator_exiting()`)
+  goneAt : Option Tick       -- the DELETED event of the object was processed then (`memory.object_gone`)
   deriving DecidableEq, Repr
 
 def St.init (t0 : Tick) : St :=
-  { now := t0, run := none, forever := false, known := true, live := 0, spawns := 0, paused := none, killerDone := false }
+  { now := t0, run := none, forever := false, known := true, live := 0, spawns := 0, paused := none, killerDone := false,
+    exitAt := none, goneAt := none }
 
 /-! ### The stage chain of `stop_daemons` (tied to the source by the translator) -/
 
@@ -218,13 +229,19 @@ def stopIf (c : Cfg) (s : St) (cond : Bool) (r : Reason) (ex : Ex) : St × List 
   | true, some i => applyOut s (stopOne c s.now r i ex)
   | _, _ => (s, [])
 
+/-- `spawn_daemons` returns at once: `memory.operator_exiting` or `memory.object_gone` -/
+def St.spawnBlocked (c : Cfg) (s : St) : Bool :=
+  (c.marksExiting && s.exitAt.isSome) || (c.stopsGone && s.goneAt.isSome)
+
 def cycle (c : Cfg) (inp : CycIn) (s : St) : St × List Tick :=
-  let s := if inp.deleted then { s with known := false } else s
+  -- DELETED: `memories.forget`, then `stop_daemons_of_gone_object` marks the memory (its background
+  -- `stop_daemon`s are the label `kBegin .deleted`, at this very instant: `tickOk`)
+  let s := if inp.deleted then { s with known := false, goneAt := some s.now } else s
   if inp.marked then
     stopIf c s true .deleted inp.ex1                       -- stop_daemons(all running)
   else
     let selected := inp.matching && !s.forever              -- get_handlers(cause, excluded=forever_stopped)
-    let s1 := if selected && s.run.isNone then spawn s else s       -- spawn_daemons: `handler.id not in daemons`
+    let s1 := if selected && s.run.isNone && !s.spawnBlocked c then spawn s else s    -- spawn_daemons
     let (s2, dm) := stopIf c s1 (!selected) .mismatch inp.ex1      -- match_daemons
     let (s3, dp) := stopIf c s2 inp.paused .pausing inp.ex2        -- pause_daemons (strictly after spawning)
     (s3, dm ++ dp)
@@ -257,10 +274,31 @@ def St.atRound (s : St) : Bool :=
     is in `running_daemons` since `t`. -/
 def firstDue (p t : Tick) : Tick := if t < p then p else p + ((t - p) / 64 + 1) * 64
 
+/-- which `stop_daemon` may be started now: by a round of the pausing loop, by the exit sweep (after the
+    mark, before the killer is gone), by the processing of the object's DELETED event -/
+def St.mayBegin (c : Cfg) (s : St) : Reason → Bool
+  | .pausing => s.known && !s.killerDone && s.atRound
+  | .exiting => s.known && !s.killerDone && s.exitAt.isSome
+  | .deleted => c.stopsGone && (s.goneAt == some s.now)
+  | _ => false
+
+/-- the exit sweep lists this instance for sure: its memory is still there, and either nothing is spawned
+    after the mark (since 1d3a667: every instance was there when the sweep began), or the instance is in
+    `running_daemons` since before the instant of the sweep -/
+def St.exitDue (c : Cfg) (s : St) (i : Inst) (x : Tick) : Bool :=
+  s.known && (c.marksExiting || decide (i.since < x))
+
+/-- the exit sweep has covered the instance (if it had to) -/
+def St.sweptForExit (c : Cfg) (s : St) : Bool :=
+  match s.exitAt, s.run with
+  | some x, some i => !s.exitDue c i x || (decide (x ∈ i.kstarts) && i.has .exiting)
+  | _, _ => true
+
 /-- asyncio fires due timers: may the clock advance by `d` from `s`? Not past a stage of a running
     `stop_daemon` coroutine that has not happened yet (its `aiotasks.wait(..., timeout=backoff / timeout)`
     returns at the deadline and the stage is done at once), and — while paused — not past a round of the
-    killer that has not yet started `stop_daemon` for a daemon that was listed before that round. -/
+    killer that has not yet started `stop_daemon` for a daemon that was listed before that round; nor at all
+    before the background `stop_daemon`s of a gone object / of the exit sweep have started. -/
 def tickOk (c : Cfg) (s : St) (d : Nat) : Bool :=
   match s.run with
   | none => true
@@ -275,6 +313,16 @@ def tickOk (c : Cfg) (s : St) (d : Nat) : Bool :=
          if decide (r ∈ i.kstarts) || decide (r ≤ i.since) then decide (s.now + d ≤ r + killerPeriod)
          else decide (s.now + d ≤ r)
        else true
+     | none => true) &&
+    -- the background `stop_daemon`s of a gone object start in the instant its DELETED event is processed
+    (match s.goneAt with
+     | some g => !c.stopsGone || (decide (g ∈ i.kstarts) && i.has .deleted) || decide (d = 0)
+     | none => true) &&
+    -- the killer's exit sweep covers, in the instant it begins, every daemon that was listed before
+    (match s.exitAt with
+     | some x =>
+       if s.exitDue c i x && !s.killerDone then (decide (x ∈ i.kstarts) && i.has .exiting) || decide (d = 0)
+       else true
      | none => true)
 
 /-! ### The transition system -/
@@ -283,12 +331,14 @@ inductive Label where
   | tick (d : Nat)               -- time passes
   | cycle (inp : CycIn)          -- one processing cycle of the object
   | exit                         -- the instance ends (returns / raises / is cancelled): `_runner`'s finally
-  | kBegin (r : Reason)          -- daemon_killer starts `stop_daemon(reason)` for the instance
+  | kBegin (r : Reason)          -- `stop_daemon(reason)` starts for the instance: a round of the pausing loop, the exit
+                                 -- sweep, or (reason deleted) `stop_daemons_of_gone_object`
   | kSignal (start : Tick)       -- … its DAEMON_SIGNALLED stage
   | kCancel (start : Tick)       -- … its DAEMON_CANCELLED stage (after awaiting the backoff)
   | kAbandon (start : Tick)      -- … its DAEMON_ABANDONED stage (after awaiting the timeout)
   | pause                        -- `operator_paused` turns on (peering): the killer's pausing loop starts its rounds
   | resume                       -- `operator_paused` turns off
+  | exitBegin                    -- the killer's `finally:` begins: `memories.mark_operator_exiting()`, then the sweep
   | kFinal                       -- the killer's exit sweep (`finally:`) is over: no `stop_daemon` is started any more
   | failForGood                  -- `_timer`: the series has failed for good (`state.done and state.counts.failure`):
                                  -- `memory.forever_stopped.add(handler.id)` while the task keeps running (since a6c10de)
@@ -298,7 +348,8 @@ def step (c : Cfg) (s : St) : Label → Option St
   | .tick d => if tickOk c s d then some { s with now := s.now + d } else none
   | .pause => if s.paused.isNone && !s.killerDone then some { s with paused := some s.now } else none
   | .resume => if s.paused.isSome then some { s with paused := none } else none
-  | .kFinal => some { s with killerDone := true }
+  | .exitBegin => if s.exitAt.isNone && !s.killerDone then some { s with exitAt := some s.now } else none
+  | .kFinal => if s.exitAt.isSome && s.sweptForExit c then some { s with killerDone := true } else none
   | .failForGood => if s.run.isSome then some { s with forever := true } else none
   | .cycle inp => if s.known then some (cycle c inp s).1 else none   -- no event follows a uid's DELETED event
   | .exit =>
@@ -308,9 +359,7 @@ def step (c : Cfg) (s : St) : Label → Option St
   | .kBegin r =>
     match s.run with
     | some i =>
-      -- pausing: only in a round of the pausing loop; exiting: the exit sweep; never after the killer is gone
-      if s.known && !s.killerDone &&
-          ((r == .pausing && s.atRound) || r == .exiting) then
+      if s.mayBegin c r then
         some { s with run := some { i.set r s.now with kstarts := s.now :: i.kstarts } }
       else none
     | none => none
